@@ -391,13 +391,19 @@ def open_for_read(eng, hdr_items, data_len, password=None, name=None, mp=False):
     """a SevenZipFile in mode 'r' produced by the real _real_get_contents + Worker construction on a LayoutFile"""
     total = tokens.byte_len(eng, hdr_items)
     sig = sig_header_items(eng, data_len, total, hdr_items)
+    import builtins
+
     fp = LayoutFile(eng, sig, data_len, hdr_items, name=name)
-    szf = SObj(eng.cls(PZ, "SevenZipFile"))
-    szf.attrs.update(fp=fp, mode="r", _filePassed=name is None, filename=name, dereference=False, mp=mp,
-                     encoded_header_mode=True, header_encryption=False, password_protected=password is not None,
-                     _block_size=1048576, reporterd=None, q=Queue())
-    eng.method(szf, "_real_get_contents", password)
-    fp.seek(eng, szf.attrs["afterheader"])
-    worker = eng.new(eng.cls(PZ, "Worker"), szf.attrs["files"], szf.attrs["afterheader"], szf.attrs["header"], mp)
-    szf.attrs["worker"] = worker
+    # the REAL constructor runs: the file-object branch, or - when the archive is opened by name - the path branch with
+    # open() handing back the archive file
+    prev_open = eng.models.NATIVE.get(id(builtins.open))
+    eng.models.reg(builtins.open, lambda e, *a, **k: fp)
+    try:
+        szf = eng.new(eng.cls(PZ, "SevenZipFile"), name if name is not None else fp, "r", password=password, mp=mp)
+    finally:
+        if prev_open is not None:
+            eng.models.NATIVE[id(builtins.open)] = prev_open
+        else:
+            eng.models.NATIVE.pop(id(builtins.open), None)
+    szf.attrs["q"] = Queue()
     return szf, fp
